@@ -605,6 +605,9 @@ class _ExprMixin:
     def cmp(self, op, a, b):
         if op in ("in", "notin"):
             b2 = self.simp(b)
+            if isinstance(b2, Op) and b2.op == "range" and is_int(a) and all(is_int(x) for x in b2.args):
+                r = a.v in range(*[x.v for x in b2.args])
+                return Const(r if op == "in" else not r)
             if isinstance(b2, Ref):
                 o = self.heap[b2.oid]
                 if isinstance(o, DictObj) and o.concrete() and isinstance(a, Const):
